@@ -41,6 +41,8 @@ def invalid_programs(tier):
                                    el('q', 'x', content=['text', bad(1, BAD2)], condition=py('c2'))),
         [['c1', 'bool', 0], ['c2', 'bool', 1]])
     add('unused-macro', doc('a', el('hide', el('p', 'x', I(bad(0)), define_macro='m'), condition=py('cv')), 'b'), [['cv', 'bool', 0]])
+    add('under-replace-nothing', doc('a', el('p', 'x', I(bad(0)), replace=['text', py('nothing')]), 'b'), [])
+    add('under-content-none', doc('a', el('p', el('q', I(bad(0))), content=['text', py('None')]), 'b'), [])
     add('on-error-guard', doc(el('p', 'x', I(bad(0)), onerror=['text', py("'E'")]), 'z'), [])
     add('omit', doc(el('p', 'x', omit=bad(0), condition=py('cv'))), [['cv', 'bool', 0]])
     add('attr-interp', doc(el('p', 'x', static=[['t', ['a', I(bad(0))]]], condition=py('cv'))), [['cv', 'bool', 0]])
@@ -75,7 +77,7 @@ def plan(tier, seed):
                    'chameleon.tales:PythonExpr.translate', 'chameleon.exc:ExpressionError',
                    'chameleon.zpt.template:PageTemplate.digest'],
         bounds=('%d templates with one or two syntactically invalid expressions planted at sites whose reachability '
-                'depends on bindings (condition, literally false condition, empty repeat, a macro definition that is not rendered, later pipe alternative, '
+                'depends on bindings (condition, literally false condition, empty repeat, a macro definition that is not rendered, dummy content under tal:replace="nothing" / tal:content="None", later pipe alternative, '
                 'on-error guard; content/define/attributes/omit-tag/${} sites; same and different invalid text twice): '
                 'strict construction must raise ExpressionError located at the first site, non-strict construction must '
                 'succeed and render must raise the ExpressionError located at the reached site (token, offset, line and '
